@@ -18,6 +18,7 @@
 #include <unordered_set>
 #include <vector>
 #include <unistd.h>
+#include <signal.h>
 
 namespace vh {
 
@@ -93,10 +94,13 @@ struct Report {
 	size_t max_hashes = 150000;
 	int max_per_key = 5;
 
+	unsigned case_seconds = 0;	// per-case watchdog (0 = none): SIGALRM -> "@HANG", exit code 86
+	static void on_alarm(int) { static const char m[] = "@HANG\n"; if (::write(2, m, sizeof m - 1) < 0) {} _exit(86); }
 	void case_mark(long long n) {
 		char b[48];
 		int l = snprintf(b, sizeof b, "@CASE %lld\n", n);
 		if (::write(2, b, l) < 0) {}
+		if (case_seconds) { signal(SIGALRM, on_alarm); alarm(case_seconds); }
 	}
 	void stat(const std::string& n, long long d = 1) { stats[n] += d; }
 	void distinct(const std::string& n, uint64_t h) {
